@@ -161,7 +161,7 @@ func (l layout18) stmtSepNonEmpty() string {
 
 var exprs18 = [][]string{{"n"}, {"n", "+", "1"}, {"s"}, {`"lit<"`}, {"xs", "[", "0", "]"}, {"len", "(", "xs", ")"}, {"n", "*", "(", "2", "+", "n", ")"}, {"!", "f"},
 	{"n", "==", "3", "&&", "t"}, {"m", "[", `"a"`, "]"}, {"o.Name"}, {"0", "-", "n"}, {"s", "+", `" x"`}, {"[", "1", ",", "2", "]"}, {"{", "k", ":", "n", "}", "[", `"k"`, "]"},
-	{"o.In.Hello", "(", `"w"`, ")"}, {"truncate", "(", "s", ",", "{", "size", ":", "3", "}", ")"}, {"n", "<=", "3", "||", "f"}, {"1.5", "+", "0.25"}, {"acc"}}
+	{"o.In.Hello", "(", `"w"`, ")"}, {"o.Ins", "[", "0", "]", ".", "Name"}, {"Name"}, {"o.Ins", "[", "1", "]", ".", "Name"}, {"o.Get", "(", ")", ".", "Name"}, {"truncate", "(", "s", ",", "{", "size", ":", "3", "}", ")"}, {"n", "<=", "3", "||", "f"}, {"1.5", "+", "0.25"}, {"acc"}}
 
 func gen18(r *Rng, depth int) []litem18 {
 	n := 1 + r.Intn(4)
@@ -227,7 +227,7 @@ func init() {
 		e.perShard = 60
 		e.rep.Rule = "generated programs as token lists (let, assignment, expression statements, output tags, if/else, for, function definition + call, text; nesting depth 2), each rendered in its canonical layout (one statement per tag, single spaces) and in re-layouts: random separators from {space, spaces, tab, newline, CRLF, # line comment, blank lines} between all tokens, random tag padding, <%# %> comment tags between items, every random cut of a run of silent statements into tags with separators {; newline}, statements placed after the closing brace of if / for / fn in the same tag; oracle: every re-layout renders exactly what the canonical layout renders (errors equal up to the line number); distinct by canonical source"
 		binds := []Bind{{"n", vInt(3)}, {"s", vStr("str<")}, {"t", vBool(true)}, {"f", vBool(false)}, {"xs", vSlice("iface", vInt(7), vStr("e"))},
-			{"m", vMap("string", "iface", vStr("a"), vInt(1))}, {"o", vT1("o")}, {"acc", vInt(0)}}
+			{"m", vMap("string", "iface", vStr("a"), vInt(1))}, {"o", vT1("o")}, {"acc", vInt(0)}, {"Name", vStr("top")}}
 		n := 220
 		if e.Thorough() {
 			n = 5000
